@@ -35,7 +35,7 @@ class _Rewriter(ast.NodeTransformer):
 _counter = [0]
 
 
-def load(path, shadows=True, extra=None):
+def load(path, shadows="fork", extra=None):
     """Compile the file at `path` (current content) into a fresh module and return it."""
     with open(path) as fh:
         src = fh.read()
@@ -49,8 +49,8 @@ def load(path, shadows=True, extra=None):
     d["__symx_join__"] = sbytes.sym_join
     d["__symx_isinstance__"] = core.sym_isinstance
     if shadows:
-        d["min"] = core.sym_min
-        d["max"] = core.sym_max
+        d["min"] = core.fork_min if shadows == "fork" else core.sym_min
+        d["max"] = core.fork_max if shadows == "fork" else core.sym_max
         d["range"] = core.sym_range
     if extra:
         d.update(extra)
